@@ -7,6 +7,7 @@ RULE = ("every distinct parameter declaration of both built-in library sets (plu
         "dicts, Command objects, type objects, arrays, None) with and without a working directory; clean(v) twice, clean(clean(v)), "
         "deep copies of the value and the program before/after, type of the result; outcome compared with the Coq model. "
         "non-trivial = distinct case whose raw value is not already of the declared type, or whose outcome is an error")
+RULE += (' Also numpy / Decimal / Fraction numbers, an unfinished command that declares no output, and whole programs whose raw arguments and to_string() are compared before and after run().')
 TRUSTED = ["Python's int()/float()/str() on strings and floats enter the model as oracle fields of the raw value (cross-checked in Coq for plain decimal integers)",
            "os.path.isabs/join/exists are modelled for POSIX paths; os.path.exists is the listed set of existing paths"]
 ASSUMPTIONS = ["ASCII strings; Command objects belong to the program"]
